@@ -110,6 +110,8 @@ func defaultProxyServer(ctx context.Context, handler http.Handler, tlsConfig *tl
 	svr.MetricsRegistry = PrometheusRegistry
 
 	svr.HTTPServer.IdleTimeout = parseHTTPIdleTimeout()
+	// the HTTP/2 server reads its own IdleTimeout, not HTTPServer's
+	svr.HTTP2Server.IdleTimeout = svr.HTTPServer.IdleTimeout
 	svr.HTTPServer.ReadTimeout = parseHTTPReadTimeout()
 	svr.HTTPServer.WriteTimeout = parseHTTPWriteTimeout()
 	svr.TLSHandshakeTimeout = parseTLSHandshakeTimeout()
